@@ -316,6 +316,7 @@ def run(ctx):
     r8(ctx, F)
     r9(ctx, F)
     r10(ctx, F)
+    r11_none_only_from_inner(ctx, F)
     ctx.not_decided('nth(n) == n+1 next calls; len()/size_hint() == number of values still to come; None after exhaustion without panic')
 
 
@@ -882,3 +883,44 @@ def r10(ctx, F):
                                 gp, k, dims.get(POS, [(None, 0, '')])[0][2], (dims.get(POS) or [(ln,)])[0][0].name, dims.get(POS, [(0, 0)])[0][1],
                                 dims.get(DELTA, [(None, 0, '')])[0][2], (dims.get(DELTA) or [(ln,)])[0][0].name, dims.get(DELTA, [(0, 0)])[0][1]) if both else '')
     ctx.ok('C15-R10', 'scan', '%d integer parameter(s) of private helpers called from the gradual calculators classified as position / step count' % n)
+
+
+# ---- R11: the performance iterators answer None only because the difficulty iterator did (seed C15-7: `if self.failed { return None }` with an unchanged len())
+def r11_none_only_from_inner(ctx, F):
+    """`len()` of every gradual performance calculator is the inner difficulty iterator's len() (R1).  "None exactly when nothing remains" then requires that
+    `nth` cannot answer None on its own: every alternative of its result (phi alternatives, `?` residuals, combinators expanded) is derived from a call of the inner
+    iterator's `nth`.  A literal None behind a private flag is a stop that len() knows nothing about."""
+    import combin
+    n = 0
+    types = [(gp_adt(m), CAP[m] + 'GradualPerformance') for m in MODES] + [(GP, 'GradualPerformance')]
+    for adt, short in types:
+        f = F.method(adt, 'nth', inherent_only=True)
+        if f is None:
+            ctx.violation('C15-R11', 'anchor-missing:%s::nth' % short, 'method not found')
+            continue
+        ctx.saw(f)
+        rv = prov.prov_of(f).return_value()
+        rv = prov.inline_all(F, rv, depth=2, _seen=(f.path,), only=lambda f_: (f_.get('impl_adt') or '') == adt and not f_.get('trait') and
+                             f_.get('name') not in ('nth', 'next', 'last', 'len'))
+        rv = combin.expand(F, rv)
+
+        def alts(v, depth=0):
+            v = prov.strip(v, names=set())
+            if v[0] == 'phi' and depth < 6:
+                out = []
+                for a in v[1]:
+                    out += alts(a, depth + 1)
+                return out
+            return [v]
+        bad = []
+        k = 0
+        for a in alts(rv):
+            k += 1
+            inner = any(x[0] == 'call' and x[1].get('name') == 'nth' and 'Gradual' in (x[1].get('path') or '') for x in prov.walk(a, limit=3000))
+            if not inner:
+                bad.append(prov.show(a, maxdepth=2)[:60])
+        n += k
+        ctx.require(not bad, 'C15-R11', 'none-from-inner:' + short, '%s::nth: each of the %d alternatives of its result comes from the inner iterator\'s nth()' % (short, k), f.where(),
+                    bad='%s::nth can answer `%s` without asking the inner iterator: it stops on a condition of its own while len() still reports the inner iterator\'s '
+                        'remaining count — None no longer means "nothing remains"' % (short, '` / `'.join(bad)))
+    ctx.floor('C15-R11', n, 5, 'result alternatives of the five performance nth()')
